@@ -247,6 +247,20 @@ func ReadGFF(f io.Reader) (GFF, error) {
 		}
 	}
 
+	// if there were no feature lines, the header hasn't been parsed yet
+	if firstAfterHeader {
+		gff.HeaderLines = header
+		gff.CommentLines = comments
+		err = gff.versionStringFromHeader()
+		if err != nil {
+			return gff, err
+		}
+		err = gff.setSequenceRegionsFromHeader()
+		if err != nil {
+			return gff, err
+		}
+	}
+
 	gff.Features = features
 	gff.populateIDMap()
 
